@@ -29,6 +29,16 @@ type kBeh struct {
 	Steps   []json.RawMessage `json:"steps"`
 }
 
+// soft collects result mismatches of read-only calls: the replay goes on after them (so that one
+// deviation does not hide the rest of the behaviour); at most 3 per behaviour are kept.
+type soft struct{ fails []*kFail }
+
+func (s *soft) add(f *kFail) {
+	if len(s.fails) < 3 {
+		s.fails = append(s.fails, f)
+	}
+}
+
 type kFail struct {
 	step int
 	op   string
@@ -110,7 +120,7 @@ func pairsStr(ps [][2]int) string {
 	return sb.String()
 }
 
-func replayOM(b *kBeh) *kFail {
+func replayOM(b *kBeh, sf *soft) *kFail {
 	var m *OM
 	if b.Variant == "new" {
 		m = orderedmap.New[OM](0)
@@ -225,7 +235,11 @@ func replayOM(b *kBeh) *kFail {
 			return &kFail{step: si, harn: true, msg: "unknown op " + s.Op}
 		}
 		if got != want {
-			return fail(si, s.Op, sig, "orderedmap (%s) %s(k=%d,v=%d,p=%s,o=%v): model predicts %s, code returned %s", b.Variant, s.Op, s.K, s.V, s.P, s.O, want, got)
+			f := fail(si, s.Op, sig, "orderedmap (%s) %s(k=%d,v=%d,p=%s,o=%v): model predicts %s, code returned %s", b.Variant, s.Op, s.K, s.V, s.P, s.O, want, got)
+			if s.Op == "set" || s.Op == "delete" {
+				return f
+			}
+			sf.add(f)
 		}
 		switch s.Op {
 		case "set", "intersection", "union":
@@ -578,6 +592,7 @@ func mainC51(in, outPath string) {
 	util.Parallel(len(behs), workers(), func(i int) {
 		b := behs[i]
 		var f *kFail
+		var sf soft
 		func() {
 			defer func() {
 				if r := recover(); r != nil {
@@ -586,7 +601,7 @@ func mainC51(in, outPath string) {
 			}()
 			switch b.Kind {
 			case "omap":
-				f = replayOM(b)
+				f = replayOM(b, &sf)
 			case "pset":
 				f = replayPS(b)
 			case "bimap":
@@ -598,7 +613,11 @@ func mainC51(in, outPath string) {
 			}
 		}()
 		atomic.AddInt64(&nsteps, int64(len(b.Steps)))
+		all := sf.fails
 		if f != nil {
+			all = append(all, f)
+		}
+		for _, f := range all {
 			atomic.AddInt64(&nfail, 1)
 			n := f.step + 1
 			if n > len(b.Steps) {
